@@ -2,7 +2,7 @@ CONSTANTS
   MaxA = 4
   MaxM = 4
   WA = 2
-  WM = 3
+  WM = 2
   MaxCount = 5
   Modes = {"map", "tuple", "wide"}
 SPECIFICATION Spec
